@@ -161,6 +161,11 @@ def analyze(ex, stmts, eff=None):
             for it in n.items:
                 if it.optional_vars is not None:
                     target(it.optional_vars)
+                ch = _attr_chain(it.context_expr)
+                we = ex.spec.get('with_effects', {}).get('.'.join(ch) if ch else None)
+                if we is not None:
+                    for m in getattr(we, 'mutates', ()):
+                        eff.mutated.add(m)
         elif isinstance(n, ast.ExceptHandler):
             if n.name:
                 eff.assigned.add(n.name)
